@@ -146,7 +146,7 @@ class Gen11:
                 return dict(k="Ident", dt=dt, n=n)
             for _ in range(20):
                 t = g.tree(n, 1, cplx)
-                if t["k"] not in ("Kron", "BDiag", "Diag", "Scal") and not ("scalarmul_device_cpu" in self.present and False):
+                if t["k"] not in ("Kron", "BDiag", "Diag", "Scal"):
                     return t
             return dict(k="Dense", dt=dt, a=g.gmat(g.unimod(n, cplx)))
         k = r.choice(["Kron", "Kron", "BDiag", "BDiag"]) if n >= 2 else "BDiag"
@@ -192,7 +192,10 @@ def is_perm_matrix(P):
 
 
 def run_impl(case):
+    import cola
     cholesky, plu = api()
+    if case.get("callable"):   # the exported algorithm objects: Cholesky()(A), LU()(A)
+        cholesky, plu = cola.linalg.Cholesky(), cola.linalg.LU()
     A = L.build(case["tree"])
     t = L.reflect(A)
     D = T.dense(t)
@@ -299,7 +302,7 @@ def run(ctx):
     present |= {f["flag"] for f in c06.findings() if f["present"]} | c06.c01_present()
     r = ctx.rng
     g = Gen11(r, present)
-    ncases = ctx.budget(260, 2500)
+    ncases = ctx.budget(500, 5000)
     dmax = ctx.budget(3, 4)
     cases = []
     tries = 0
@@ -309,10 +312,7 @@ def run(ctx):
         n = r.choice([1, 2, 3, 4, 4, 5, 6, 6, 8, 9, 12])
         pd = r.random() < 0.5
         t = g.pd(n, r.randint(0, dmax), cplx) if pd else g.ns(n, r.randint(0, dmax), cplx)
-        if "scalarmul_device_cpu" in present and False:
-            continue
-        D = T.dense(t) if "decl" not in str(t) else None
-        cases.append(dict(tree=t, pd=pd, cplx=cplx))
+        cases.append(dict(tree=t, pd=pd, cplx=cplx, callable=(r.random() < 0.3)))
     terms, meta, mism = [], [], []
     n_lu = n_ch = n_lu_ok = n_ch_exact = 0
     for ci, case in enumerate(cases):
